@@ -46,20 +46,20 @@ class OrientedStub(Matchable):
     is recognised from the first character (forward texts consist of A/C, the others of G/T); an empty text belongs to
     the orientation of the previous call (it can only be what an earlier round of the same search left)."""
 
-    def __init__(self, name, prog, astop=5):
+    def __init__(self, name, prog, astop=5, fwd_alphabet=None, shared=None):
         super().__init__(name)
         self.prog = {"f": list(prog.get("f", [])), "r": list(prog.get("r", []))}
         self.count = {"f": 0, "r": 0}
         self.calls = []
-        self.cur = "f"
+        self.fwd_alphabet = FWD_ALPHABET if fwd_alphabet is None else fwd_alphabet
+        self.shared = {"cur": "f"} if shared is None else shared   # stubs of one linked adapter share the orientation
         self.astop = astop
         self.sequence = "A" * astop
-        self.stats = None
 
     def match_to(self, sequence):
         if len(sequence) > 0:
-            self.cur = "f" if sequence[0] in FWD_ALPHABET else "r"
-        o = self.cur
+            self.shared["cur"] = "f" if sequence[0] in self.fwd_alphabet else "r"
+        o = self.shared["cur"]
         k = self.count[o]
         self.count[o] = k + 1
         self.calls.append((o, sequence))
@@ -108,6 +108,7 @@ class RecFile:
 
 def _outcome(kind, c, score):
     # one symbolic cut position per match: a 5' match covers [0, c), a 3' match [c, end)
+    c = _conc(c, 0, _n())
     return ("before", 0, c, score, 0) if kind == "before" else ("after", c, BIG, score, 0)
 
 
@@ -133,6 +134,15 @@ def _n():
     return len(_PARAM.get("seq", FWD_TEXT))
 
 
+def _conc(x, lo, hi):
+    """Identity on lo..hi that hands back a concrete int (one explicit two-way fork per value; much cheaper for
+    CrossHair than realising the int at the first slice)."""
+    for v in range(lo, hi):
+        if x == v:
+            return v
+    return hi
+
+
 def _quals(n):
     return "".join(chr(40 + i) for i in range(n))
 
@@ -143,6 +153,8 @@ def _single_progs(c, s):
     if _PARAM.get("two_adapters"):
         fk = _PARAM.get("fk", ("after", "before"))
         rk = _PARAM.get("rk", ("before", "after"))
+        fixed = _PARAM.get("fixed_cuts") or (None, None, None, None)   # quick tier: the second adapter cuts at fixed positions
+        c = tuple(c[i] if fixed[i] is None else fixed[i] for i in range(4))
         return [{"f": [_outcome(fk[0], c[0], s[0])], "r": [_outcome(rk[0], c[2], s[2])]},
                 {"f": [_outcome(fk[1], c[1], s[1])], "r": [_outcome(rk[1], c[3], s[3])]}]
     fk = _PARAM.get("fk", ("after",))
@@ -342,23 +354,29 @@ def _add_single(name, param, timeout=240, thorough_only=False):
         CONDITIONS.append({"name": "single/%s" % name, "fn": "check_single", "param": param, "timeout": timeout, "thorough_only": thorough_only})
 
 
+def _seq_for(n_matches):
+    return "ACCA" if n_matches < 4 else "ACC"
+
+
 for _nf in (0, 1, 2):
     for _nr in (0, 1, 2):
-        _add_single("times=2/trim/fwd=%d/rev=%d" % (_nf, _nr), {"times": 2, "action": "trim", "fk": _kinds(_nf, "after"), "rk": _kinds(_nr, "before")})
+        _add_single("times=2/trim/fwd=%d/rev=%d" % (_nf, _nr), {"times": 2, "action": "trim", "fk": _kinds(_nf, "after"), "rk": _kinds(_nr, "before"), "seq": _seq_for(_nf + _nr)})
 for _nf in (0, 1):
     for _nr in (0, 1):
-        _add_single("times=1/trim/fwd=%d/rev=%d" % (_nf, _nr), {"times": 1, "action": "trim", "fk": _kinds(_nf, "before"), "rk": _kinds(_nr, "after")})
+        _add_single("times=1/trim/fwd=%d/rev=%d" % (_nf, _nr), {"times": 1, "action": "trim", "fk": _kinds(_nf, "before"), "rk": _kinds(_nr, "after"), "seq": "ACCA"})
 for _action in ("mask", "lowercase", "retain", None):
-    _add_single("times=1/%s/fwd=1/rev=1" % _action, {"times": 1, "action": _action, "fk": ("after",), "rk": ("before",)})
-_add_single("times=2/mask/fwd=2/rev=1", {"times": 2, "action": "mask", "fk": ("before", "after"), "rk": ("after",)})
-_add_single("rename/times=1/fwd=1/rev=1", {"times": 1, "action": "trim", "fk": ("after",), "rk": ("after",), "naming": "rename"})
-_add_single("rename/times=2/fwd=0/rev=2", {"times": 2, "action": "trim", "fk": (), "rk": ("after", "before"), "naming": "rename"})
-_add_single("two_adapters/times=1", {"times": 1, "action": "trim", "two_adapters": True, "fk": ("after", "before"), "rk": ("before", "after")})
+    _add_single("times=1/%s/fwd=1/rev=1" % _action, {"times": 1, "action": _action, "fk": ("after",), "rk": ("before",), "seq": "ACCA"})
+_add_single("times=2/mask/fwd=2/rev=1", {"times": 2, "action": "mask", "fk": ("before", "after"), "rk": ("after",), "seq": "ACCA"})
+_add_single("rename/times=1/fwd=1/rev=1", {"times": 1, "action": "trim", "fk": ("after",), "rk": ("after",), "naming": "rename", "seq": "ACCA"})
+_add_single("rename/times=2/fwd=0/rev=2", {"times": 2, "action": "trim", "fk": (), "rk": ("after", "before"), "naming": "rename", "seq": "ACCA"})
+_add_single("two_adapters/times=1/second_adapter_fixed_cuts", {"times": 1, "action": "trim", "two_adapters": True, "fk": ("after", "before"), "rk": ("before", "after"), "seq": "ACC", "fixed_cuts": (None, 1, None, 2)})
+_add_single("two_adapters/times=1", {"times": 1, "action": "trim", "two_adapters": True, "fk": ("after", "before"), "rk": ("before", "after"), "seq": "AC"}, timeout=900, thorough_only=True)
 import itertools as _it
 for _fk in _it.product(("before", "after"), repeat=2):
     for _rk in _it.product(("before", "after"), repeat=2):
         if (_fk, _rk) != (_kinds(2, "after"), _kinds(2, "before")):
-            _add_single("times=2/trim/fwd=%s/rev=%s" % ("".join(k[0] for k in _fk), "".join(k[0] for k in _rk)), {"times": 2, "action": "trim", "fk": _fk, "rk": _rk}, thorough_only=True)
+            _add_single("times=2/trim/fwd=%s/rev=%s" % ("".join(k[0] for k in _fk), "".join(k[0] for k in _rk)), {"times": 2, "action": "trim", "fk": _fk, "rk": _rk, "seq": "ACC"}, thorough_only=True)
+_add_single("times=2/trim/fwd=2/rev=2/len4", {"times": 2, "action": "trim", "fk": ("after", "before"), "rk": ("before", "after"), "seq": "ACCA"}, timeout=900, thorough_only=True)
 
 
 def _add_paired(name, param, timeout=240, thorough_only=False):
@@ -376,13 +394,12 @@ def _add_paired(name, param, timeout=240, thorough_only=False):
 
 for _pres in _it.product((False, True), repeat=4):
     _add_paired("both/trim/present=%s" % "".join("1" if x else "0" for x in _pres),
-                {"cutters": "both", "present": _pres, "kinds": ("after", "before", "before", "after"), "times": 1, "action": "trim"},
-                thorough_only=sum(_pres) in (1, 3) and _pres not in ((True, False, False, False), (False, False, True, False)))
+                {"cutters": "both", "present": _pres, "kinds": ("after", "before", "before", "after"), "times": 1, "action": "trim", "seq": _seq_for(sum(_pres))})
 for _which in ("only1", "only2"):
     for _pres in ((True, True, True, True), (True, True, False, False)):
         _add_paired("%s/trim/present=%s" % (_which, "".join("1" if x else "0" for x in _pres)),
-                    {"cutters": _which, "present": _pres, "kinds": ("after", "after", "before", "after"), "times": 1, "action": "trim"})
-_add_paired("both/mask/times=2/present=1111", {"cutters": "both", "present": (True, True, True, True), "kinds": ("after", "before", "after", "before"), "times": 2, "action": "mask"})
+                    {"cutters": _which, "present": _pres, "kinds": ("after", "after", "before", "after"), "times": 1, "action": "trim", "seq": "ACCA"})
+_add_paired("both/mask/times=2/present=1111", {"cutters": "both", "present": (True, True, True, True), "kinds": ("after", "before", "after", "before"), "times": 2, "action": "mask", "seq": "ACC"})
 
 
 def describe():
@@ -390,7 +407,7 @@ def describe():
         "functions": ["modifiers.py:ReverseComplementer.__call__", "modifiers.py:PairedReverseComplementer.__call__", "modifiers.py:Renamer.__call__/compile_rename_function ({rc})",
                       "steps.py:InfoFileWriter.__call__ (RC_MAP, re-oriented original read)", "modifiers.py:AdapterCutter.__call__/match_and_trim/_match_and_trim_once_action_trim (baseline and callee)",
                       "modifiers.py:PairedEndModifierWrapper.__call__ (baseline)", "adapters.py:MultipleAdapters.match_to"],
-        "bounds": {"read": "fixed text ACCA (reverse complement TGGT), pairs ACCA/GTTG, distinct quality characters", "matches": "0..2 per orientation (--times 1 and 2), one or two adapters; pairs: 0..1 per cutter and order",
+        "bounds": {"read": "fixed text ACCA (reverse complement TGGT), pairs ACCA/GTTG, distinct quality characters; ACC / GTT where four matches are symbolic at once", "matches": "0..2 per orientation (--times 1 and 2), one or two adapters; pairs: 0..1 per cutter and order",
                    "cut positions": "0..4 (every prefix/suffix of the text, symbolic)", "scores": "-3..3 each, symbolic (negative scores included)",
                    "actions": "trim, mask, lowercase, retain, none", "naming": "' rc' suffix; --rename '{id}_{rc} {comment}'", "paired": "both cutters, only R1 cutter, only R2 cutter"},
         "outside_bounds": ["longer reads and more than 2 rounds", "score magnitudes above 3 (the decision is a linear comparison of sums)", "PairedEndRenamer (does not accept {rc})"],
